@@ -262,6 +262,7 @@ class Ctx:
     def __init__(self, prop, tier, seed):
         self.prop, self.tier, self.seed = prop, tier, seed
         self.rng = random.Random(f"{prop}/{seed}")
+        self.extended = False
         self.t0 = time.time()
         self.evaluations = 0
         self.keys = set()            # distinct non-trivial case keys
@@ -531,6 +532,9 @@ def harness_crash(prop, seed, exc_text):
     return 1
 
 
+SLOW_THOROUGH = {"C02", "C05", "C07", "C08", "C10", "C12", "C20"}
+
+
 def drift(ctx, specs):
     """Compare with harness/fingerprints.json (committed). A changed modelled function is not a violation:
     it is recorded in the evidence and switches the correspondence run to the thorough budget."""
@@ -541,6 +545,13 @@ def drift(ctx, specs):
     ctx.notes["modelled_functions"] = len(specs)
     ctx.notes["model_source_changed"] = changed
     if changed and any(s in known for s in changed):
-        ctx.thorough = True
-        ctx.notes["budget"] = "thorough (a modelled function changed)"
+        # the run is extended when a modelled function changed.  Properties whose thorough tier needs more than ~6 minutes on a
+        # loaded machine keep their quick generators and only enlarge them where they look at `ctx.extended` (the quick command
+        # must stay well inside the time a check is given; `./check Cnn thorough` is the deep exploration)
+        ctx.extended = True
+        if ctx.prop in SLOW_THOROUGH and ctx.tier != "thorough":
+            ctx.notes["budget"] = "extended quick budget (a modelled function changed; thorough tier of this property is slow)"
+        else:
+            ctx.thorough = True
+            ctx.notes["budget"] = "thorough (a modelled function changed)"
     return now
